@@ -73,7 +73,7 @@ static int mint_der(int leafType, int verifierIsServer, int label, int viaInt, m
     case L_NOTYET_LEAF: leaf.not_before = now + 10L * 86400; leaf.not_after = now + 400L * 86400; break;
     case L_SIG_CORRUPT: leaf.sigmode = CG_SM_FLIP; leaf.flip_bit = 77; break;
     case L_UNKNOWN_CRIT: leaf.unk = 2; break;
-    case L_NO_TRUST:
+    case L_NO_TRUST: break;                /* an ordinary leaf under a root the verifier does not have: the verifier has no trust anchor at all (self-signed variant: L_SELF_SIGNED with the wrong anchor) */
     case L_SELF_SIGNED: leaf.issuer = leaf.subject; leaf.signer = leafK; leaf.aki = 0; break;
     case L_LEAF_CRIT_EKU: leaf.eku_mask = CG_EKU_CODE | CG_EKU_EMAIL; leaf.eku_crit = 1; break;
     case L_AKI_MISMATCH: leaf.signer = otherRootK; memcpy(leaf.akid, otherRootK->skid, 20); break;     /* names the claimed issuer, is signed (correctly) by another CA key and says so in its authorityKeyIdentifier */
